@@ -33,6 +33,7 @@ fn is_type_only_decl(d: &Decl) -> Option<bool> {
         Decl::Var(v) if v.declare => Some(true),
         Decl::Fn(f) if f.declare => Some(true),
         Decl::Class(c) if c.declare => Some(true),
+        Decl::TsModule(m) if m.declare => Some(true), // ambient: `declare module "x" {}`, `declare namespace N {}`, `declare global {}`
         Decl::TsEnum(..) | Decl::TsModule(..) => None, // unsupported
         _ => Some(false),
     }
